@@ -209,7 +209,7 @@ class Check:
 
     def finish(self):
         kf = load_known_findings()
-        evdir = os.path.join(VERIF, "evidence")
+        evdir = os.environ.get("VERIF_EVIDENCE_DIR") or os.path.join(VERIF, "evidence")
         os.makedirs(os.path.join(evdir, "replay"), exist_ok=True)
         import glob as _glob
         for old in _glob.glob(os.path.join(evdir, "replay", f"{self.pid}-*.json")):
